@@ -457,6 +457,35 @@ def _native_halfguard():
     try: ns['half_guarded']([1], -2); return False
     except IndexError: return True
 
+SRC_REMOVE = '''
+def drop(xs, v):
+    if v in xs:
+        xs.remove(v)
+    return xs
+'''
+class Drop(_ListSpec):
+    """list.remove removes the FIRST occurrence only and shifts the rest"""
+    ints = ('v',)
+    def ensures(self, E, ctx, p, ret):
+        h = p.heap; n1 = ln(h, self.xs); it1 = items_i(h, self.xs); w = fresh('sk', I)
+        return [('T:length', Or(n1 == self.n0, n1 == self.n0 - 1)), ('T:elements-come-from-the-old-list', ctx.forall(1, lambda j: Implies(And(0 <= j, j < n1), Or(it1[j] == self.it0[j], it1[j] == self.it0[j + 1])))),
+                ('T:absent-means-unchanged', Implies(n1 == self.n0, it1 == self.it0)), ('T:prefix-before-a-non-v-run-is-kept', Implies(And(self.n0 >= 1, self.it0[0] != self.v), it1[0] == self.it0[0])),
+                ('F:no-occurrence-left', ctx.forall(1, lambda j: Implies(And(0 <= j, j < n1), it1[j] != self.v)))]
+def _native_drop():
+    ns = {}; exec(SRC_REMOVE, ns); return 1 in ns['drop']([1, 1], 1)
+class DropUnguarded(_ListSpec):
+    ints = ('v',)
+    def ensures(self, E, ctx, p, ret): return [('T:length', ln(p.heap, self.xs) == self.n0 - 1)]
+SRC_REMOVE_U = '''
+def drop_unguarded(xs, v):
+    xs.remove(v)
+    return xs
+'''
+def _native_drop_u():
+    ns = {}; exec(SRC_REMOVE_U, ns)
+    try: ns['drop_unguarded']([1], 2); return False
+    except ValueError: return True
+
 SRC_NONE = '''
 def first_or_zero(xs):
     if not xs:
@@ -477,7 +506,7 @@ class FirstOrZero(Spec):
 def _native_none():
     ns = {}; exec(SRC_NONE, ns); return ns['first_or_zero'](None) == 0 and ns['first_or_zero']([]) == 0
 
-CASES = [('put2', SRC_PUT2, Put2, _native_put2), ('getk', SRC_GETK, GetK, _native_getk), ('seen', SRC_SEEN, Seen, _native_seen), ('safe_get', SRC_SAFE, SafeGet, _native_safe), ('use', SRC_USE, Use, _native_use),
+CASES = [('drop', SRC_REMOVE, Drop, _native_drop), ('drop_unguarded', SRC_REMOVE_U, DropUnguarded, _native_drop_u), ('put2', SRC_PUT2, Put2, _native_put2), ('getk', SRC_GETK, GetK, _native_getk), ('seen', SRC_SEEN, Seen, _native_seen), ('safe_get', SRC_SAFE, SafeGet, _native_safe), ('use', SRC_USE, Use, _native_use),
          ('inner_bad', SRC_INNER, InnerBad, _native_inner), ('index_of', SRC_INDEXOF, IndexOf, _native_indexof), ('evens', SRC_EVENS, Evens, _native_evens), ('guarded', SRC_GUARD, Guarded, None),
          ('half_guarded', SRC_HALFGUARD, HalfGuarded, _native_halfguard),
          ('first_or_zero', SRC_NONE, FirstOrZero, _native_none), ('zero_fill', SRC_ZERO, ZeroFill, None), ('clobber', SRC_CLOBBER, Clobber, _native_clobber), ('clobber_w', SRC_CLOBBER_W, ClobberW, _native_clobber_w),
@@ -486,7 +515,7 @@ CASES = [('put2', SRC_PUT2, Put2, _native_put2), ('getk', SRC_GETK, GetK, _nativ
          ('count', SRC_COUNT, Count, _native_count), ('rows', SRC_ROWS, Rows, _native_rows), ('fresh_rows', SRC_FRESHROWS, FreshRows, _native_fresh_rows), ('chk', SRC_CHK, Chk, _native_chk),
          ('sum_to', SRC_SUMTO, SumTo, _native_sumto)]
 # obligations that must fail although their label carries no F: marker (implicit obligations of the engine)
-EXPECT_FAIL_IMPLICIT = {'LastEmpty': ('no-IndexError',), 'SetX': ('frame@',), 'GetK': ('no-KeyError',), 'HalfGuarded': ('no-IndexError',)}
+EXPECT_FAIL_IMPLICIT = {'LastEmpty': ('no-IndexError',), 'SetX': ('frame@',), 'GetK': ('no-KeyError',), 'HalfGuarded': ('no-IndexError',), 'DropUnguarded': ('no-ValueError',)}
 
 def run(timeout=20000, verbose=False):
     """-> (ok, n_cases, n_obligations, problems[list of str], seconds)"""
